@@ -52,6 +52,9 @@ type World struct {
 	// (int8..int64, uint16, uint64, float32, whole floats for Int, whole ints for Float, pointers to them) instead of
 	// always int / float64 / string / bool; which one is a function of the path, and the value they denote is the same.
 	TypedLeaves bool `json:"typedLeaves,omitempty"`
+	// TypedLists: lists whose elements all have one Go type are handed over as slices of that type ([]int, []string,
+	// []*Tok, [][]int) instead of []interface{} (library side only; the value denoted is the same).
+	TypedLists bool `json:"typedLists,omitempty"`
 }
 
 // retype hands a leaf value over as another Go type denoting the same value.
